@@ -1,6 +1,6 @@
 (* C02 — Field store/load round-trips and never disturbs bits outside the field. *)
 From Coq Require Import ZArith List Bool.
-From DD Require Import Common Carrier Bits BitsSpec BitsProofs BitsRoundtrip.
+From DD Require Import Common Carrier Bits BitsSpec BitsProofs BitsRoundtrip BitsAlgebra.
 Import ListNotations.
 Open Scope Z_scope.
 
@@ -81,6 +81,68 @@ Proof. vm_compute. split; reflexivity. Qed.
 Example C02_guard_inhabited : guard 64 I16 [0xAB; 0xCD; 0xEF] 3 17.
 Proof. apply guardb_sound. vm_compute. reflexivity. Qed.
 
+(* ---- algebraic laws of the field operations (BitsAlgebra.v) ---- *)
+
+(* A field set is determined by its set-bits: isolation and locality, which speak about set-bits,
+   therefore speak about every byte of the buffer. *)
+Theorem C02_bytes_determined_by_setbits : forall bo bito d1 d2,
+  bytes_ok d1 -> bytes_ok d2 -> length d2 = length d1 ->
+  (forall k, 0 <= k < 8 * Z.of_nat (length d1) -> setbit bo bito d2 k = setbit bo bito d1 k) ->
+  d2 = d1.
+Proof. exact data_ext. Qed.
+
+(* Writing back the value just read leaves the whole buffer exactly as it was (a `modify` whose
+   closure changes nothing is a no-op on every byte) — for every carrier, signed ones included. *)
+Theorem C02_store_of_loaded_is_identity : forall ptrw bo bito c data s e x,
+  guard ptrw c data s e ->
+  load ptrw bo bito c data s e = Some (Ok x) ->
+  store ptrw bo bito c x s e data = Some (Ok data).
+Proof. exact store_loaded_identity. Qed.
+
+(* The last store into a field wins: nothing of an earlier value of the same field survives. *)
+Theorem C02_last_store_wins : forall ptrw bo bito c v1 v2 data s e,
+  guard ptrw c data s e ->
+  exists d1 d2, store ptrw bo bito c v1 s e data = Some (Ok d1) /\
+    store ptrw bo bito c v2 s e d1 = Some (Ok d2) /\
+    store ptrw bo bito c v2 s e data = Some (Ok d2).
+Proof. exact store_store. Qed.
+
+(* Setting A then B gives byte for byte the same buffer as setting B then A when the definition does
+   not let them overlap. *)
+Theorem C02_disjoint_stores_commute : forall ptrw bo bito ca cb va vb data sa ea sb eb,
+  guard ptrw ca data sa ea -> guard ptrw cb data sb eb -> ea <= sb \/ eb <= sa ->
+  exists dab,
+    (exists da, store ptrw bo bito ca va sa ea data = Some (Ok da) /\
+                store ptrw bo bito cb vb sb eb da = Some (Ok dab)) /\
+    (exists db, store ptrw bo bito cb vb sb eb data = Some (Ok db) /\
+                store ptrw bo bito ca va sa ea db = Some (Ok dab)).
+Proof. exact store_commute. Qed.
+
+(* ... and overlapping stores need not commute (the hypothesis is not idle). *)
+Example C02_overlapping_stores_do_not_commute :
+  (match store 64 LE LSB0 U8 0 0 4 [0xFF] with Some (Ok d) => store 64 LE LSB0 U8 15 2 6 d | _ => None end) = Some (Ok [0xFC]) /\
+  (match store 64 LE LSB0 U8 15 2 6 [0xFF] with Some (Ok d) => store 64 LE LSB0 U8 0 0 4 d | _ => None end) = Some (Ok [0xF0]).
+Proof. vm_compute. split; reflexivity. Qed.
+
+(* Set A, then any sequence of setter calls on fields disjoint from A, then read A: the value
+   written, reduced to the field's width (unsigned carriers, and signed carriers wider than the
+   field — the reading D1 documents). *)
+Theorem C02_write_others_read : forall ptrw bo bito c v s e sts data,
+  guard ptrw c data s e -> e - s < bits (cty_ity ptrw c) \/ signed (cty_ity ptrw c) = false ->
+  Forall (setter_ok ptrw (length data)) sts -> Forall (disjoint_from s e) sts ->
+  exists d1 d2, store ptrw bo bito c v s e data = Some (Ok d1) /\
+    fold_left (apply_setter ptrw bo bito) sts (Some d1) = Some d2 /\
+    load ptrw bo bito c d2 s e = Some (Ok (v mod 2 ^ (e - s))).
+Proof. exact write_others_read. Qed.
+
+Example C02_write_others_read_inhabited :
+  fold_left (apply_setter 64 BE MSB0)
+    [{| st_c := U8; st_s := 0; st_e := 3; st_v := 5 |}; {| st_c := U16; st_s := 17; st_e := 24; st_v := 0x55 |}]
+    (match store 64 BE MSB0 I16 (-3) 3 17 [0xAB; 0xCD; 0xEF] with Some (Ok d) => Some d | _ => None end)
+  = Some [0xD5; 0xFF; 0xBD] /\
+  load 64 BE MSB0 I16 [0xD5; 0xFF; 0xBD] 3 17 = Some (Ok ((-3) mod 2 ^ 14)).
+Proof. vm_compute. split; reflexivity. Qed.
+
 Print Assumptions C02_isolation.
 Print Assumptions C02_load_local.
 Print Assumptions C02_roundtrip_unsigned.
@@ -89,3 +151,8 @@ Print Assumptions C02_roundtrip_signed_narrow_partial.
 Print Assumptions C02_signed_narrow_agrees_when_top_bit_clear.
 Print Assumptions C02_signed_narrow_refuted.
 Print Assumptions C02_setter_sequences.
+Print Assumptions C02_bytes_determined_by_setbits.
+Print Assumptions C02_store_of_loaded_is_identity.
+Print Assumptions C02_last_store_wins.
+Print Assumptions C02_disjoint_stores_commute.
+Print Assumptions C02_write_others_read.
